@@ -28,13 +28,13 @@ CHECKS = {
         technique='exhaustive grids + Hypothesis grammar-based generation against an exact Fraction oracle and a hand-written recogniser (differential client/server/reference)',
         text='All d.ddd x unit and 0..4096 x unit strings are enumerated exhaustively and thousands of grammar/near-grammar strings are generated per run; '
              'each is compared with exact rational arithmetic and with the server validator. Held-on-everything-explored; the enumerated grids are complete.',
-        note='Trusts the Fraction oracle and the hand-written recogniser in checks/c25.py; "exact value" = decimal literal as a rational times the unit factor.'),
+        note='Trusts the Fraction oracle and the hand-written recogniser in checks/c25.py; "exact value" = decimal literal as a rational times the unit factor. For every string all three parsers are called in turn and the judged parser again: no answer may depend on which parser saw the string before.'),
     'C16': dict(
         level='exploration',
         technique='exhaustive op-sequence enumeration (small capacities) + Hypothesis op lists, drained on a harness-owned asyncio loop, against statement invariants and a deque reference model',
         text='Every acquire/release sequence up to a length bound is enumerated for capacities 1-3(4) and thousands of longer random sequences for capacity 1-16; '
              'after each op the real FIFOWeightedSemaphore (through the context-manager form the worker uses) is compared with the safety/FIFO/liveness invariants.',
-        note='Single-threaded asyncio, so op order is the whole schedule space; trusts vlib/aiosched.py. Waiter cancellation is not in the statement and not generated.'),
+        note='Single-threaded asyncio, so op order is the whole schedule space; trusts vlib/aiosched.py. Waiter cancellation is not in the statement and not generated. Ops can share one event-loop step (two releases, an arrival in the step of a release) and a holder can release-and-reacquire in one task step; grant order is judged as a set prefix there.'),
     'C40': dict(
         level='exploration',
         technique='exhaustive + Hypothesis histories of enter/finish/fail/cancel (including cancel racing a grant) on a harness-owned loop; invariant oracle on value, wait list and liveness',
@@ -84,7 +84,7 @@ CHECKS = {
         level='exploration',
         technique='the engine\'s Scala statistical functions run as compiled source slices against exact-integer / fixed-point / mpmath references over exhaustive small grids and Hypothesis-generated tables',
         text='10^4 dense 2x2 tables, generated tables up to 3000 per cell, HWE triples exhaustive to 25^3 plus generated to 5000: p-values, statistics, odds ratios and CI limits against their definitions with stated tolerances; p in [0,1]; NaN exactly where degenerate.',
-        note='pchisqtail is substituted (commons-math3 for jdistlib); Scala 3 compile of 2.12 source; references in checks/c37.py. One known finding (uniroot absolute tolerance) is listed. The slicer pulls in sibling members the sliced functions newly refer to.'),
+        note='pchisqtail is substituted (commons-math3 for jdistlib); Scala 3 compile of 2.12 source; references in checks/c37.py. One known finding (uniroot absolute tolerance) is listed. The slicer pulls in sibling members the sliced functions newly refer to. Every judged Hardy-Weinberg call is preceded by a related call in the same JVM.'),
     'C15': dict(
         level='exploration',
         technique='exhaustive subset/shape grids + Hypothesis spec generation; round-trip oracle through json for every batch format version',
@@ -109,7 +109,7 @@ CHECKS = {
         level='exploration',
         technique='exhaustive enumeration of all strings <= 5 over a 12-symbol adversarial alphabet + Hypothesis mutation of accepted names (+ atheris in the thorough tier); two hand-written recognisers compared in both directions',
         text='283k strings per quick run through is_valid_username, validate_credentials_secret_name_input and the insert_new_user/check_valid_new_user path; accept/reject must equal the statement-derived recognisers.',
-        note='Trusts the recognisers in checks/c28.py and the fake transaction on the insert_new_user path. Found and fixed: trailing newline accepted by the secret-name regex.'),
+        note='Trusts the recognisers in checks/c28.py and the fake transaction on the insert_new_user path. Found and fixed: trailing newline accepted by the secret-name regex. The create request is also delivered for a user row that already exists (retry / duplicate delivery).'),
     'C29': dict(
         level='exploration',
         technique='exhaustive component grid (scheme x slashes x userinfo x host x port x tail, two deploy configs) + Hypothesis grammar-aware mutation (+ atheris in thorough); one-directional differential against an independent WHATWG-style URL resolver',
@@ -149,12 +149,12 @@ CHECKS = {
         level='exploration',
         technique='Hypothesis histories on pool and job-private instances (create/activate/deactivate/delete, schedule, creating, started, complete, unschedule, duplicates, stale attempts); free cores recomputed from attempts after every op and compared with table and in-memory values',
         text='~1k histories per quick run: for live instances free_cores_mcpu == cores - sum(un-ended attempt cores); inactive => all free; the driver Instance object agrees with the table.',
-        note='Caller preconditions respected (worker endpoints only from active instances, unschedule only on active instances, mark_job_creating only for job-private pending instances). Same engine limits as C01. One known finding (cores of an attempt that ends on a still-pending instance are not credited), matched only for the exact uncredited amount.'),
+        note='Caller preconditions respected (worker endpoints only from active instances, unschedule only on active instances, mark_job_creating only for job-private pending instances). Same engine limits as C01. One known finding (cores of an attempt that ends on a still-pending instance are not credited), matched only for the exact uncredited amount. deactivate may lose its reply after the commit and be retried.'),
     'C41': dict(
         level='exploration',
         technique='Hypothesis histories weighted to late / never committed updates with parents in earlier updates, real scheduler and canceller loop bodies in between; direct invariants on uncommitted jobs + committed-only recomputation of counters, n_jobs and completeness',
         text='~1k histories per quick run (5 unguarded shards re-find the two known root causes, 11 guarded shards search behind them).',
-        note='Same engine limits as C01. Two known findings (scheduler and mark_job_complete ignore batch_updates.committed). The first update is left open more often and cancelled before its commit (corpus/C41).'),
+        note='Same engine limits as C01. Two known findings (scheduler and mark_job_complete ignore batch_updates.committed). The first update is left open more often and cancelled before its commit (corpus/C41). A child released while another parent is unfinished is reported under its own signature, never attributed to the known finding (this is how the two-edit seeded change C05_r5 is caught).'),
     'C11': dict(
         level='exploration',
         technique='exhaustive small grid + Hypothesis demand multisets written as sharded rows into minimysql, the real PoolScheduler._compute_fair_share (incl. its GROUP BY/HAVING query) against an exact Fraction water-filling solver',
@@ -189,7 +189,7 @@ CHECKS = {
         level='exploration',
         technique='typed-program generation over the expression/Table/MatrixTable APIs without execution; an independent bottom-up type inferencer over the emitted IR text with rules written from the Scala InferType/TypeCheck/TableIR/MatrixIR',
         text='~3.6k programs per quick run (190k IR nodes): front-end dtype == inferred IR type for every node, Ref and table/matrix component; literals typecheck.',
-        note='Typing rules and 32 registry signatures are hand-transcribed; node kinds outside the rule set are counted (0). One known finding (impute_type numpy widening). Mixed numeric expression containers and unifiers, widening folds / scans (accumulator binder vs Ref type), joins on non-leading keys; two defects found were fixed (ArrayExpression.contains, tbool and numpy.bool_).'),
+        note='Typing rules and 32 registry signatures are hand-transcribed; node kinds outside the rule set are counted (0). One known finding (impute_type numpy widening). Mixed numeric expression containers and unifiers, widening folds / scans (accumulator binder vs Ref type), joins on non-leading keys; two defects found were fixed (ArrayExpression.contains, tbool and numpy.bool_). An object converted implicitly, changed in place and converted again must be described as it is now; a constructed literal must render (one known finding: struct members unified to the union of their fields).'),
     'C38': dict(
         level='exploration',
         technique='exhaustive + Hypothesis interval sizes on the real partitioning; op-list merge plans through the real new_combiner/run/step/save/load with provenance-tracking engine fakes and crash/resume injection',
@@ -214,7 +214,7 @@ CHECKS = {
         level='exploration',
         technique='Hypothesis histories weighted to cancels in every order with creation, scheduling and completion inside / beside / above the cancelled subtree; before/after snapshot relations + "request answered normally" clause',
         text='~1k histories per quick run (5 unguarded shards re-find the error-1242 finding, 11 guarded shards search behind it).',
-        note='Same engine limits as C01; error 1242 semantics of minimysql has its own self-test. One known finding (is_job_cancelled returns one row per cancelled ancestor). Guards sit on the exact trigger (descendant first, then its ancestor); nested-cancel chain production with multi-request updates beneath generated groups; Creating->Running of a cancelled job is judged; a refusal by the foreign key (never-created group in the bunch) is not judged by status.'),
+        note='Same engine limits as C01; error 1242 semantics of minimysql has its own self-test. One known finding (is_job_cancelled returns one row per cancelled ancestor). Guards sit on the exact trigger (descendant first, then its ancestor); nested-cancel chain production with multi-request updates beneath generated groups; Creating->Running of a cancelled job is judged; a refusal by the foreign key (never-created group in the bunch) is not judged by status. Canceller passes can run while the shared worker pool is busy (pool size generated); a job never marked cancelled must not become Cancelled.'),
     'C08': dict(
         level='exploration',
         technique='schema-directed Hypothesis generation of create-fast / update-fast / jobs-create submissions with adversarial job and parent ids through the real aiohttp application on batchsim; structural validity + fair drive to completion; committed-state comparison on refusal',
